@@ -172,6 +172,9 @@ func c19Second(w *W, t ref.Stamp, checkOrder bool) {
 func c19LunarDay(w *W, cy, cm, cd int) {
 	key := ymd(cy, cm, cd)
 	w.Cur("C19 lunar " + key)
+	if (cd+cm)%9 == 0 {
+		distract(ref.Stamp{Y: cy, M: cm, D: cd}, cd+cm+cy)
+	}
 	l := calendar.NewSolarFromYmd(cy, cm, cd).GetLunar()
 	y, m, d := l.GetYear(), l.GetMonth(), l.GetDay()
 	chk := func(what, str string, wy int) {
